@@ -219,6 +219,52 @@ def m_repoint(r, b):
     return None
 
 
+def m_repoint_twin(r, b):
+    """an instance re-pointed to the definition of the SAME NAME and shape in another library (unconnected instances first)."""
+    insts = [c for d in defs_of(b) for c in d.children]
+    r.shuffle(insts)
+    insts.sort(key=lambda c: any(op.wire is not None for op in c.pins))
+    for i in insts:
+        cands = [d for d in defs_of(b) if d is not i.reference and d.name == i.reference.name and d.library is not i.reference.library and
+                 shape(d) == shape(i.reference) and not d.children and d is not i.parent]
+        if cands:
+            d2 = r.choice(cands)
+            lib0 = i.reference.library.name
+            conn = sum(1 for op in i.pins if op.wire is not None)
+            i.reference = d2
+            return "instance %s.%s (%d connected pins) re-pointed from %s.%s to the same-named definition of library %s" % (
+                i.parent.name, i.name, conn, lib0, d2.name, d2.library.name)
+    return None
+
+
+def plant_twins(rng, n):
+    """Same-named, same-shaped leaf definitions in two libraries, and an unconnected instance of one of them."""
+    libs = list(n.libraries)
+    leafs = [d for d in defs_of(n) if not d.children and d.references and d.name]
+    rng.shuffle(leafs)
+    k = 0
+    for d in leafs[:2]:
+        others = [l for l in libs if l is not d.library and not any(x.name and x.name.lower() == d.name.lower() for x in l.definitions)]
+        if not others:
+            continue
+        t = rng.choice(others).create_definition(d.name)
+        for p in d.ports:
+            q = t.create_port(p.name, direction=p.direction, pins=len(p.pins) or None)
+            if len(p.pins):
+                q.is_downto, q.lower_index = p.is_downto, p.lower_index
+                if not p.is_scalar:
+                    q.is_scalar = False
+        # only below a definition that already instantiates d (no new library dependency: they must stay acyclic)
+        parents = [x.parent for x in d.references if x.parent is not None]
+        if parents:
+            par = rng.choice(parents)
+            nm = "spare%d" % k
+            if not any(c.name and c.name.lower() == nm for c in par.children):
+                par.create_child(nm, reference=d)
+        k += 1
+    return k
+
+
 def m_property_value(r, b):
     insts = [c for d in defs_of(b) for c in d.children if "EDIF.properties" in c and c["EDIF.properties"]]
     if not insts:
@@ -351,12 +397,14 @@ def m_add_instance(r, b):
 
 MUTATIONS = [m_port_direction, m_port_wider, m_port_narrower, m_port_arrayness, m_cable_wider, m_cable_narrower,
              m_outer_other_instance, m_outer_other_port, m_outer_other_bit, m_inner_other_port, m_inner_other_bit,
-             m_repoint, m_property_value, m_property_added, m_property_dropped, m_property_appended, m_drop_library, m_add_library, m_drop_definition,
+             m_repoint, m_repoint_twin, m_property_value, m_property_added, m_property_dropped, m_property_appended, m_drop_library, m_add_library, m_drop_definition,
              m_add_definition, m_drop_port, m_add_port, m_drop_cable, m_add_cable, m_drop_instance, m_add_instance]
 
 
 def run_case(ctx, i, rng):
     n = gen_ir.generate(rng, profile="edif", ndefs=rng.randint(3, 7), share=0.5, max_children=4, outside=(i % 2 == 0))
+    if plant_twins(rng, n):
+        ctx.count("netlists_with_planted_same_named_twins")
     st = gen_ir.shape_stats(n)
     me = sys.modules[__name__]
     c0 = canon.canon_netlist(n)
